@@ -642,16 +642,541 @@ End Unfold.
 (* an error-free execution group value *)
 Definition pl_ok (p : payload) : Prop := (exists kvs, pl_data p = Some kvs) /\ pl_errs p = [].
 
-(* initial value + payloads reassemble to the reference value *)
+(* ------------------------------------------------------------------ any order of application *)
+
+(* what the merge sees of a payload: target path and data *)
+Definition cpl : Type := (path * option (list (str * json)))%type.
+Definition core (p : payload) : cpl := (pl_path p, pl_data p).
+
+Definition capply (j : json) (c : cpl) : option json :=
+  match snd c with
+  | None => Some j
+  | Some kvs => Merge.update_at (fst c) (merge_into kvs) j
+  end.
+
+Fixpoint capplys (j : json) (cs : list cpl) : option json :=
+  match cs with
+  | [] => Some j
+  | c :: r => match capply j c with Some j' => capplys j' r | None => None end
+  end.
+
+Lemma apply_pls_core j pls : apply_pls j pls = capplys j (map core pls).
+Proof.
+  revert j. induction pls as [|p r IH]; intro j; cbn [apply_pls map capplys]; [reflexivity|].
+  change (capply j (core p)) with (apply_pl j p). destruct (apply_pl j p); [apply IH|reflexivity].
+Qed.
+
+Definition c_ok (c : cpl) : Prop := exists kvs, snd c = Some kvs.
+
+Definition cpre (seg : pathseg) (c : cpl) : cpl := (seg :: fst c, snd c).
+
+Definition cproj_key (k : str) (cs : list cpl) : list cpl :=
+  flat_map (fun c => match fst c with
+                     | PKey k' :: q => if str_eqb k k' then [(q, snd c)] else []
+                     | _ => []
+                     end) cs.
+
+Definition cproj_idx (i : nat) (cs : list cpl) : list cpl :=
+  flat_map (fun c => match fst c with
+                     | PIdx i' :: q => if Nat.eqb i i' then [(q, snd c)] else []
+                     | _ => []
+                     end) cs.
+
+Definition chd (c : cpl) : list (str * json) :=
+  match fst c, snd c with [], Some kvs => kvs | _, _ => [] end.
+Definition cheads (cs : list cpl) : list (str * json) := flat_map chd cs.
+
+Lemma upd_key_none k f (kvs : list (str * json)) : ~ In k (map fst kvs) -> Merge.upd_key k f kvs = None.
+Proof.
+  induction kvs as [|[k' v] r IH]; cbn; [reflexivity|]. intro H.
+  destruct (str_eqb k k') eqn:E.
+  - apply str_eqb_eq in E. subst. exfalso. apply H. left. reflexivity.
+  - rewrite IH; [reflexivity|]. intro Hx. apply H. right. exact Hx.
+Qed.
+
+Lemma in_split_first {A} k (kvs : list (str * A)) :
+  In k (map fst kvs) -> exists a v b, kvs = a ++ (k, v) :: b /\ ~ In k (map fst a).
+Proof.
+  induction kvs as [|[k' v] r IH]; cbn; [tauto|]. intro H.
+  destruct (str_eqb k k') eqn:E.
+  - apply str_eqb_eq in E. subst. exists [], v, r. split; [reflexivity|tauto].
+  - destruct H as [H|H]; [subst; rewrite str_eqb_refl in E; discriminate|].
+    destruct (IH H) as [a [v0 [b [-> Hn]]]]. exists ((k', v) :: a), v0, b. split; [reflexivity|].
+    cbn. intros [Hx|Hx]; [subst; rewrite str_eqb_refl in E; discriminate|tauto].
+Qed.
+
+Lemma nodup_keys_in {A} (l : list (str * A)) k v v' :
+  NoDup (map fst l) -> In (k, v) l -> In (k, v') l -> v = v'.
+Proof.
+  induction l as [|[k0 v0] r IH]; cbn; [tauto|]. intros Hn H1 H2. inversion Hn; subst.
+  destruct H1 as [H1|H1], H2 as [H2|H2].
+  - congruence.
+  - inversion H1; subst. exfalso. apply H3. apply in_map_iff. exists (k, v'). split; [reflexivity|exact H2].
+  - inversion H2; subst. exfalso. apply H3. apply in_map_iff. exists (k, v). split; [reflexivity|exact H1].
+  - eapply IH; eauto.
+Qed.
+
+Lemma capply_key k a v b q d :
+  ~ In k (map fst a) ->
+  capply (JObj (a ++ (k, v) :: b)) (PKey k :: q, d)
+  = match capply v (q, d) with Some v' => Some (JObj (a ++ (k, v') :: b)) | None => None end.
+Proof.
+  intro Hn. unfold capply. cbn [fst snd]. destruct d as [kvs|]; [|reflexivity].
+  cbn [Merge.update_at]. rewrite upd_key_at by exact Hn.
+  destruct (Merge.update_at q (merge_into kvs) v); reflexivity.
+Qed.
+
+(* an object against an arbitrary sequence of payloads: every key's final value is its first value
+   with exactly the payloads addressed below that key applied in their order *)
+Lemma obj_sim cs : forall kvs r,
+  Forall c_ok cs ->
+  NoDup (map fst kvs ++ map fst (cheads cs)) ->
+  capplys (JObj kvs) cs = Some r ->
+  exists kvs_r, r = JObj kvs_r /\
+    map fst kvs_r = map fst kvs ++ map fst (cheads cs) /\
+    (forall k v0, In (k, v0) kvs -> exists v, In (k, v) kvs_r /\ capplys v0 (cproj_key k cs) = Some v) /\
+    (forall a c b k v0, cs = a ++ c :: b -> In (k, v0) (chd c) ->
+        exists v, In (k, v) kvs_r /\ capplys v0 (cproj_key k b) = Some v /\ cproj_key k a = []).
+Proof.
+  induction cs as [|c rest IH]; intros kvs r Hok Hnd H.
+  - cbn in H. inversion H; subst. exists kvs. cbn [cheads flat_map map]. rewrite app_nil_r.
+    split; [reflexivity|]. split; [reflexivity|]. split.
+    + intros k v0 Hin. exists v0. split; [exact Hin|reflexivity].
+    + intros a c b k v0 Hs. destruct a; discriminate.
+  - inversion Hok as [|x l [dkvs Hd] Hok']; subst. destruct c as [p d]. cbn [snd] in Hd. subst d.
+    cbn [capplys] in H.
+    destruct p as [|[k'|i'] q].
+    + (* a head: its keys are appended *)
+      unfold capply in H. cbn [fst snd Merge.update_at] in H.
+      cbn [cheads flat_map chd fst snd] in Hnd. fold (cheads rest) in Hnd. rewrite map_app in Hnd.
+      rewrite merge_into_fresh in H.
+      2:{ apply NoDup_app_r in Hnd. apply NoDup_app_l in Hnd. exact Hnd. }
+      2:{ intros k Hk Hin. eapply NoDup_app_disj; [exact Hnd|exact Hin|]. apply in_or_app. left. exact Hk. }
+      destruct (IH (kvs ++ dkvs) r Hok') as [kvs_r [-> [Hk [H3 H4]]]]; [|exact H|].
+      { rewrite map_app, <- app_assoc. exact Hnd. }
+      exists kvs_r. split; [reflexivity|]. split.
+      { cbn [cheads flat_map chd fst snd]. fold (cheads rest). rewrite Hk, !map_app, app_assoc. reflexivity. }
+      split.
+      * intros k v0 Hin. destruct (H3 k v0) as [v [Hv Ha]]; [apply in_or_app; left; exact Hin|].
+        exists v. split; [exact Hv|]. exact Ha.
+      * intros a c b k v0 Hs Hin. destruct a as [|c0 a'].
+        -- cbn in Hs. inversion Hs; subst. cbn [chd fst snd] in Hin.
+           destruct (H3 k v0) as [v [Hv Ha]]; [apply in_or_app; right; exact Hin|].
+           exists v. split; [exact Hv|]. split; [exact Ha|reflexivity].
+        -- cbn in Hs. inversion Hs; subst.
+           destruct (H4 a' c b k v0 eq_refl Hin) as [v [Hv [Ha Hp]]].
+           exists v. split; [exact Hv|]. split; [exact Ha|]. cbn [cproj_key flat_map fst]. exact Hp.
+    + (* below a key *)
+      cbn [cheads flat_map chd fst snd app] in Hnd. fold (cheads rest) in Hnd.
+      destruct (mem k' (map fst kvs)) eqn:Em.
+      2:{ exfalso. apply mem_not_In in Em. unfold capply in H. cbn [fst snd Merge.update_at] in H.
+          rewrite upd_key_none in H by exact Em. discriminate. }
+      apply mem_In in Em. destruct (in_split_first k' kvs Em) as [a0 [v0' [b0 [-> Hna]]]].
+      rewrite capply_key in H by exact Hna.
+      destruct (capply v0' (q, Some dkvs)) as [v1|] eqn:E1; [|discriminate].
+      assert (Hkeys : map fst (a0 ++ (k', v1) :: b0) = map fst (a0 ++ (k', v0') :: b0)).
+      { rewrite !map_app. reflexivity. }
+      destruct (IH (a0 ++ (k', v1) :: b0) r Hok') as [kvs_r [-> [Hk [H3 H4]]]]; [|exact H|].
+      { rewrite Hkeys. exact Hnd. }
+      exists kvs_r. split; [reflexivity|]. split.
+      { cbn [cheads flat_map chd fst snd app]. fold (cheads rest). rewrite Hk, Hkeys. reflexivity. }
+      assert (Hnk : NoDup (map fst (a0 ++ (k', v0') :: b0))) by (eapply NoDup_app_l; exact Hnd).
+      split.
+      * intros k v0 Hin. cbn [cproj_key flat_map fst snd]. fold (cproj_key k rest).
+        destruct (str_eqb k k') eqn:Ek.
+        -- apply str_eqb_eq in Ek. subst k'.
+           assert (v0 = v0').
+           { eapply nodup_keys_in; [exact Hnk|exact Hin|]. apply in_or_app. right. left. reflexivity. }
+           subst v0'.
+           destruct (H3 k v1) as [v [Hv Ha]]; [apply in_or_app; right; left; reflexivity|].
+           exists v. split; [exact Hv|]. cbn [app capplys]. rewrite E1. exact Ha.
+        -- destruct (H3 k v0) as [v [Hv Ha]].
+           { apply in_app_or in Hin as [Hin|[Hin|Hin]]; apply in_or_app; [left; exact Hin| |right; right; exact Hin].
+             inversion Hin; subst. rewrite str_eqb_refl in Ek. discriminate. }
+           exists v. split; [exact Hv|exact Ha].
+      * intros a c b k v0 Hs Hin. destruct a as [|c0 a'].
+        -- cbn in Hs. inversion Hs; subst. cbn [chd fst snd] in Hin. destruct Hin.
+        -- cbn in Hs. inversion Hs; subst.
+           destruct (H4 a' c b k v0 eq_refl Hin) as [v [Hv [Ha Hp]]].
+           exists v. split; [exact Hv|]. split; [exact Ha|].
+           cbn [cproj_key flat_map fst snd]. fold (cproj_key k a'). rewrite Hp.
+           destruct (str_eqb k k') eqn:Ek; [|reflexivity]. exfalso.
+           apply str_eqb_eq in Ek. subst k'.
+           eapply NoDup_app_disj; [exact Hnd|exact Em|].
+           unfold cheads. rewrite flat_map_app. cbn [flat_map]. rewrite !map_app. apply in_or_app. right.
+           apply in_or_app. left. apply in_map_iff. exists (k, v0). split; [reflexivity|exact Hin].
+    + (* an index below an object: the merge fails *)
+      unfold capply in H. cbn in H. discriminate.
+Qed.
+
+Lemma set_nth_none f (l : list json) i : nth_error l i = None -> Merge.set_nth i f l = None.
+Proof.
+  revert i. induction l as [|x r IH]; intros [|i]; cbn; try reflexivity; try discriminate.
+  intro H. rewrite IH by exact H. reflexivity.
+Qed.
+
+Lemma capply_idx a v b q d :
+  capply (JList (a ++ v :: b)) (PIdx (length a) :: q, d)
+  = match capply v (q, d) with Some v' => Some (JList (a ++ v' :: b)) | None => None end.
+Proof.
+  unfold capply. cbn [fst snd]. destruct d as [kvs|]; [|reflexivity].
+  cbn [Merge.update_at]. rewrite set_nth_at.
+  destruct (Merge.update_at q (merge_into kvs) v); reflexivity.
+Qed.
+
+Lemma list_sim cs : forall js r,
+  Forall c_ok cs -> capplys (JList js) cs = Some r ->
+  exists js_r, r = JList js_r /\ length js_r = length js /\
+    forall i v0, nth_error js i = Some v0 ->
+      exists v, nth_error js_r i = Some v /\ capplys v0 (cproj_idx i cs) = Some v.
+Proof.
+  induction cs as [|c rest IH]; intros js r Hok H.
+  - cbn in H. inversion H; subst. exists js. split; [reflexivity|]. split; [reflexivity|].
+    intros i v0 Hn. exists v0. split; [exact Hn|reflexivity].
+  - inversion Hok as [|x l [dkvs Hd] Hok']; subst. destruct c as [p d]. cbn [snd] in Hd. subst d.
+    cbn [capplys] in H. destruct p as [|[k'|i'] q].
+    + unfold capply in H. cbn in H. discriminate.
+    + unfold capply in H. cbn in H. discriminate.
+    + destruct (nth_error js i') as [v0'|] eqn:En.
+      2:{ exfalso. unfold capply in H. cbn [fst snd Merge.update_at] in H.
+          rewrite set_nth_none in H by exact En. discriminate. }
+      destruct (nth_error_split js i' En) as [a0 [b0 [-> Hl]]]. subst i'.
+      rewrite capply_idx in H.
+      destruct (capply v0' (q, Some dkvs)) as [v1|] eqn:E1; [|discriminate].
+      destruct (IH (a0 ++ v1 :: b0) r Hok' H) as [js_r [-> [Hlen H3]]].
+      exists js_r. split; [reflexivity|]. split.
+      { rewrite Hlen, !app_length. reflexivity. }
+      intros i v0 Hn. cbn [cproj_idx flat_map fst snd]. fold (cproj_idx i rest).
+      destruct (Nat.eqb i (length a0)) eqn:Ei.
+      * apply Nat.eqb_eq in Ei. subst i.
+        rewrite nth_error_app2 in Hn by apply Nat.le_refl. rewrite Nat.sub_diag in Hn. cbn in Hn.
+        inversion Hn; subst v0'.
+        destruct (H3 (length a0) v1) as [v [Hv Ha]].
+        { rewrite nth_error_app2 by apply Nat.le_refl. rewrite Nat.sub_diag. reflexivity. }
+        exists v. split; [exact Hv|]. cbn [app capplys]. rewrite E1. exact Ha.
+      * apply Nat.eqb_neq in Ei. destruct (H3 i v0) as [v [Hv Ha]]; [|exists v; split; assumption].
+        destruct (Nat.lt_ge_cases i (length a0)) as [Hlt|Hge].
+        -- rewrite nth_error_app1 in * by exact Hlt. exact Hn.
+        -- rewrite nth_error_app2 in * by exact Hge.
+           destruct (i - length a0)%nat as [|m] eqn:Em; [lia|]. cbn in *. exact Hn.
+Qed.
+
+(* projections commute with permutations *)
+Lemma cproj_key_perm k cs cs' : Permutation cs cs' -> Permutation (cproj_key k cs) (cproj_key k cs').
+Proof. apply Permutation_flat_map. Qed.
+Lemma cproj_idx_perm i cs cs' : Permutation cs cs' -> Permutation (cproj_idx i cs) (cproj_idx i cs').
+Proof. apply Permutation_flat_map. Qed.
+Lemma cheads_perm cs cs' : Permutation cs cs' -> Permutation (cheads cs) (cheads cs').
+Proof. apply Permutation_flat_map. Qed.
+
+(* projections of the canonical payload lists *)
+Lemma cproj_key_pre k k' cs : cproj_key k (map (cpre (PKey k')) cs) = if str_eqb k k' then cs else [].
+Proof.
+  induction cs as [|[p d] r IH]; cbn [map cproj_key flat_map cpre fst snd].
+  - destruct (str_eqb k k'); reflexivity.
+  - fold (cproj_key k (map (cpre (PKey k')) r)). rewrite IH. destruct (str_eqb k k'); reflexivity.
+Qed.
+
+Lemma cproj_idx_pre i i' cs : cproj_idx i (map (cpre (PIdx i')) cs) = if Nat.eqb i i' then cs else [].
+Proof.
+  induction cs as [|[p d] r IH]; cbn [map cproj_idx flat_map cpre fst snd].
+  - destruct (Nat.eqb i i'); reflexivity.
+  - fold (cproj_idx i (map (cpre (PIdx i')) r)). rewrite IH. destruct (Nat.eqb i i'); reflexivity.
+Qed.
+
+Lemma cheads_pre seg cs : cheads (map (cpre seg) cs) = [].
+Proof. induction cs as [|[p d] r IH]; cbn; [reflexivity|]. exact IH. Qed.
+
+Lemma core_pre seg pls : map core (pre_pls seg pls) = map (cpre seg) (map core pls).
+Proof. unfold pre_pls. rewrite !map_map. reflexivity. Qed.
+
+Lemma core_nest pls : map core (map nest_pl pls) = map core pls.
+Proof. rewrite map_map. reflexivity. Qed.
+
+Lemma Forall2_len {A B} (P : A -> B -> Prop) l l' : Forall2 P l l' -> length l = length l'.
+Proof. induction 1; cbn; congruence. Qed.
+
+Definition AnyOrd (j0 : json) (cs : list cpl) (j : json) : Prop :=
+  forall cs' m', Permutation cs cs' -> capplys j0 cs' = Some m' -> jeq m' j.
+
+Lemma AnyOrd_nil j : AnyOrd j [] j.
+Proof.
+  intros cs' m' Hp H. apply Permutation_nil in Hp. subst. cbn in H. inversion H; subst. apply jeq_refl.
+Qed.
+
+(* ---- objects ---- *)
+Definition celift (E : list er) : list cpl :=
+  flat_map (fun e => map (cpre (PKey (er_key e))) (map core (er_pls e))) E.
+
+Lemma core_elift E : map core (elift E) = celift E.
+Proof.
+  unfold elift, celift. induction E as [|e r IH]; cbn; [reflexivity|].
+  rewrite map_app, core_pre, IH. reflexivity.
+Qed.
+
+Definition sel (k : str) (e : er) : list cpl := if str_eqb k (er_key e) then map core (er_pls e) else [].
+
+Lemma cproj_key_app k a b : cproj_key k (a ++ b) = cproj_key k a ++ cproj_key k b.
+Proof. unfold cproj_key. apply flat_map_app. Qed.
+
+Lemma cproj_key_celift k E : cproj_key k (celift E) = flat_map (sel k) E.
+Proof.
+  unfold celift. induction E as [|e r IH]; cbn [flat_map]; [reflexivity|].
+  rewrite cproj_key_app, IH, cproj_key_pre. reflexivity.
+Qed.
+
+Lemma sel_none k E : ~ In k (map er_key E) -> flat_map (sel k) E = [].
+Proof.
+  induction E as [|e r IH]; cbn [flat_map map]; [reflexivity|]. intro H.
+  unfold sel at 1. destruct (str_eqb k (er_key e)) eqn:Ek.
+  - apply str_eqb_eq in Ek. exfalso. apply H. left. symmetry. exact Ek.
+  - apply IH. intro Hx. apply H. right. exact Hx.
+Qed.
+
+Lemma sel_unique e E : NoDup (map er_key E) -> In e E -> flat_map (sel (er_key e)) E = map core (er_pls e).
+Proof.
+  induction E as [|x r IH]; cbn [flat_map map]; [intros _ []|]. intros Hn [->|Hin]; inversion Hn; subst.
+  - unfold sel at 1. rewrite str_eqb_refl. rewrite sel_none by assumption. apply app_nil_r.
+  - unfold sel at 1. destruct (str_eqb (er_key e) (er_key x)) eqn:Ek.
+    + apply str_eqb_eq in Ek. exfalso. apply H1. rewrite <- Ek. apply in_map. exact Hin.
+    + apply IH; assumption.
+Qed.
+
+(* the canonical payload list of one object position, as the merge sees it *)
+Definition ccanon (E0 : list er) (GL : list (list er)) : list cpl :=
+  celift E0 ++ flat_map (fun E => ([], Some (ekvs E)) :: celift E) GL.
+
+Lemma cproj_key_cons_head k d l : cproj_key k (([], d) :: l) = cproj_key k l.
+Proof. reflexivity. Qed.
+
+Lemma cproj_key_ccanon k E0 GL : cproj_key k (ccanon E0 GL) = flat_map (sel k) (E0 ++ concat GL).
+Proof.
+  unfold ccanon. rewrite cproj_key_app, cproj_key_celift, flat_map_app. f_equal.
+  induction GL as [|E r IH]; cbn [flat_map concat]; [reflexivity|].
+  cbn [app]. rewrite cproj_key_cons_head, cproj_key_app, cproj_key_celift, flat_map_app, IH. reflexivity.
+Qed.
+
+Lemma cheads_app a b : cheads (a ++ b) = cheads a ++ cheads b.
+Proof. unfold cheads. apply flat_map_app. Qed.
+
+Lemma cheads_celift E : cheads (celift E) = [].
+Proof.
+  unfold celift. induction E as [|e r IH]; cbn [flat_map]; [reflexivity|].
+  rewrite cheads_app, cheads_pre, IH. reflexivity.
+Qed.
+
+Lemma cheads_cons c l : cheads (c :: l) = chd c ++ cheads l.
+Proof. reflexivity. Qed.
+
+Lemma cheads_ccanon E0 GL : cheads (ccanon E0 GL) = flat_map ekvs GL.
+Proof.
+  unfold ccanon. rewrite cheads_app, cheads_celift. cbn [app].
+  induction GL as [|E r IH]; cbn [flat_map]; [reflexivity|].
+  cbn [app]. rewrite cheads_cons, cheads_app, cheads_celift, IH. reflexivity.
+Qed.
+
+Lemma c_ok_celift E : Forall pl_ok (elift E) -> Forall c_ok (celift E).
+Proof.
+  rewrite <- core_elift. intro H. apply Forall_map. eapply Forall_impl; [|exact H].
+  intros p [[kvs Hd] _]. exists kvs. exact Hd.
+Qed.
+
+Lemma jeq_kvs_pointwise (f : str -> json) l :
+  (forall k v, In (k, v) l -> jeq v (f k)) -> jeq_kvs l (map (fun kv => (fst kv, f (fst kv))) l).
+Proof.
+  induction l as [|[k v] r IH]; intro H; cbn; [constructor|].
+  constructor; [apply H; left; reflexivity|apply IH; intros k0 v0 Hin; apply H; right; exact Hin].
+Qed.
+
+Lemma lookup_in_nodup {A} k (v : A) l : NoDup (map fst l) -> In (k, v) l -> lookup k l = Some v.
+Proof.
+  induction l as [|[k0 v0] r IH]; cbn; [tauto|]. intros Hn [H|H]; inversion Hn; subst.
+  - inversion H; subst. rewrite str_eqb_refl. reflexivity.
+  - destruct (str_eqb k k0) eqn:E; [|apply IH; assumption].
+    apply str_eqb_eq in E. subst. exfalso. apply H2. apply in_map_iff. exists (k0, v). split; [reflexivity|exact H].
+Qed.
+
+Lemma lookup_some_in {A} k (v : A) l : lookup k l = Some v -> In (k, v) l.
+Proof.
+  induction l as [|[k0 v0] r IH]; cbn; [discriminate|].
+  destruct (str_eqb k k0) eqn:E; [|intro H; right; apply IH; exact H].
+  intro H. inversion H; subst. apply str_eqb_eq in E. subst. left. reflexivity.
+Qed.
+
+(* an object assembled in ANY applicable order equals the reference up to key order *)
+Lemma level_any (E0 : list er) (GL : list (list er)) (refs : list json) :
+  let ALL := E0 ++ concat GL in
+  NoDup (map er_key ALL) ->
+  Forall2 (fun e j => AnyOrd (er_val e) (map core (er_pls e)) j) ALL refs ->
+  Forall c_ok (ccanon E0 GL) ->
+  forall R, Permutation (combine (map er_key ALL) refs) R ->
+  AnyOrd (JObj (ekvs E0)) (ccanon E0 GL) (JObj R).
+Proof.
+  intros ALL Hnd HF Hok R HR cs' m' Hp H.
+  assert (Hlen : length (map er_key ALL) = length refs).
+  { rewrite map_length. eapply Forall2_len. exact HF. }
+  assert (Hkeys : map fst (combine (map er_key ALL) refs) = map er_key ALL).
+  { clear - Hlen. revert refs Hlen. generalize (map er_key ALL) as ks.
+    induction ks as [|k r IH]; intros [|j t] Hl; cbn in *; try discriminate; [reflexivity|].
+    f_equal. apply IH. lia. }
+  (* simulate *)
+  assert (Hheads : Permutation (map fst (cheads cs')) (map er_key (concat GL))).
+  { eapply Permutation_trans; [apply Permutation_map; apply cheads_perm; apply Permutation_sym; exact Hp|].
+    rewrite cheads_ccanon. clear. induction GL as [|E r IH]; cbn; [constructor|].
+    rewrite !map_app, ekvs_keys. apply Permutation_app_head. exact IH. }
+  destruct (obj_sim cs' (ekvs E0) m') as [kvs_r [-> [Hk [H3 H4]]]].
+  - eapply Permutation_Forall; [exact Hp|exact Hok].
+  - rewrite ekvs_keys. eapply Permutation_NoDup; [|exact Hnd]. unfold ALL. rewrite map_app.
+    apply Permutation_app_head. apply Permutation_sym. exact Hheads.
+  - exact H.
+  - (* every entry's final value is equal to its reference *)
+    assert (Hkr : Permutation (map fst kvs_r) (map er_key ALL)).
+    { rewrite Hk, ekvs_keys. unfold ALL. rewrite map_app. apply Permutation_app_head. exact Hheads. }
+    assert (Hnr : NoDup (map fst kvs_r)).
+    { eapply Permutation_NoDup; [apply Permutation_sym; exact Hkr|exact Hnd]. }
+    assert (Hent : forall e j, In (e, j) (combine ALL refs) -> exists v, In (er_key e, v) kvs_r /\ jeq v j).
+    { intros e j Hin.
+      assert (HeA : In e ALL) by (eapply in_combine_l; exact Hin).
+      assert (Hany : AnyOrd (er_val e) (map core (er_pls e)) j).
+      { clear - HF Hin. induction HF as [|x y l l' Hxy HF IH]; cbn in Hin; [destruct Hin|].
+        destruct Hin as [Hin|Hin]; [inversion Hin; subst; exact Hxy|apply IH; exact Hin]. }
+      assert (Hproj : Permutation (map core (er_pls e)) (cproj_key (er_key e) cs')).
+      { eapply Permutation_trans; [|apply cproj_key_perm; exact Hp].
+        rewrite cproj_key_ccanon. fold ALL. rewrite sel_unique by assumption. apply Permutation_refl. }
+      unfold ALL in HeA. apply in_app_or in HeA as [He0|Heg].
+      - destruct (H3 (er_key e) (er_val e)) as [v [Hv Ha]].
+        { unfold ekvs. apply in_map_iff. exists e. split; [reflexivity|exact He0]. }
+        exists v. split; [exact Hv|]. eapply Hany; [exact Hproj|exact Ha].
+      - apply in_concat in Heg as [E [HE HeE]].
+        assert (Hc : In ([], Some (ekvs E)) cs').
+        { eapply Permutation_in; [exact Hp|]. unfold ccanon. apply in_or_app. right.
+          apply in_flat_map. exists E. split; [exact HE|left; reflexivity]. }
+        apply in_split in Hc as [a [b Hs]].
+        destruct (H4 a _ b (er_key e) (er_val e) Hs) as [v [Hv [Ha Hpa]]].
+        { cbn [chd fst snd]. unfold ekvs. apply in_map_iff. exists e. split; [reflexivity|exact HeE]. }
+        exists v. split; [exact Hv|]. eapply Hany; [|exact Ha].
+        eapply Permutation_trans; [exact Hproj|]. rewrite Hs, cproj_key_app, Hpa. cbn [app].
+        change (([], Some (ekvs E)) :: b) with ([(@nil pathseg, Some (ekvs E))] ++ b).
+        rewrite cproj_key_app. cbn. apply Permutation_refl. }
+    set (cr := combine (map er_key ALL) refs) in *.
+    set (f := fun k => match lookup k cr with Some j => j | None => JNull end).
+    assert (Hncr : NoDup (map fst cr)) by (rewrite Hkeys; exact Hnd).
+    apply jeq_obj with (b := map (fun kv => (fst kv, f (fst kv))) kvs_r).
+    + apply jeq_kvs_pointwise. intros k v Hin.
+      assert (Hka : In k (map er_key ALL)).
+      { eapply Permutation_in; [exact Hkr|]. apply in_map_iff. exists (k, v). split; [reflexivity|exact Hin]. }
+      apply in_map_iff in Hka as [e [Hke HeA]].
+      (* the reference of e *)
+      assert (Hj : exists j, In (e, j) (combine ALL refs)).
+      { clear - HF HeA. induction HF as [|x y l l' Hxy HF IH]; [destruct HeA|].
+        destruct HeA as [->|HeA]; [exists y; left; reflexivity|].
+        destruct (IH HeA) as [j Hj]. exists j. right. exact Hj. }
+      destruct Hj as [j Hj]. destruct (Hent e j Hj) as [v' [Hv' Hjq]].
+      rewrite Hke in Hv'. assert (v' = v) by exact (nodup_keys_in kvs_r k v' v Hnr Hv' Hin). subst v'.
+      assert (Hl : lookup k cr = Some j).
+      { apply lookup_in_nodup; [exact Hncr|]. unfold cr. rewrite <- Hke.
+        clear - Hj. revert refs Hj. induction ALL as [|x l IH]; intros [|y t] Hj; cbn in *; try tauto.
+        destruct Hj as [Hj|Hj]; [inversion Hj; subst; left; reflexivity|right; apply IH; exact Hj]. }
+      unfold f. rewrite Hl. exact Hjq.
+    + eapply Permutation_trans; [|exact HR]. apply NoDup_Permutation.
+      * apply (NoDup_map_inv fst). rewrite map_map. cbn [fst]. exact Hnr.
+      * apply (NoDup_map_inv fst). exact Hncr.
+      * intros [k j]. split.
+        -- intro Hin. apply in_map_iff in Hin as [[k0 v0] [Heq Hin]]. cbn [fst] in Heq. inversion Heq; subst.
+           assert (Hka : In k (map fst cr)).
+           { rewrite Hkeys. eapply Permutation_in; [exact Hkr|].
+             apply in_map_iff. exists (k, v0). split; [reflexivity|exact Hin]. }
+           apply in_map_iff in Hka as [[k1 j1] [Hk1 Hin1]]. cbn [fst] in Hk1. subst k1.
+           unfold f. rewrite (lookup_in_nodup k j1 cr Hncr Hin1). exact Hin1.
+        -- intro Hin. apply in_map_iff.
+           assert (Hka : In k (map fst kvs_r)).
+           { eapply Permutation_in; [apply Permutation_sym; exact Hkr|]. rewrite <- Hkeys.
+             apply in_map_iff. exists (k, j). split; [reflexivity|exact Hin]. }
+           apply in_map_iff in Hka as [[k1 v1] [Hk1 Hin1]]. cbn [fst] in Hk1. subst k1.
+           exists (k, v1). split; [|exact Hin1]. cbn [fst]. unfold f.
+           rewrite (lookup_in_nodup k j cr Hncr Hin). reflexivity.
+Qed.
+
+(* ---- lists ---- *)
+Lemma cproj_idx_app i a b : cproj_idx i (a ++ b) = cproj_idx i a ++ cproj_idx i b.
+Proof. unfold cproj_idx. apply flat_map_app. Qed.
+
+Lemma cproj_idx_ilift I : forall i0 i,
+  cproj_idx i (map core (ilift I i0))
+  = match (if Nat.ltb i i0 then None else nth_error I (i - i0)) with
+    | Some x => map core (snd x)
+    | None => []
+    end.
+Proof.
+  induction I as [|x r IH]; intros i0 i; cbn [ilift map].
+  - cbn [cproj_idx flat_map]. destruct (Nat.ltb i i0); [reflexivity|]. destruct (i - i0)%nat; reflexivity.
+  - rewrite map_app, cproj_idx_app, core_pre, cproj_idx_pre, IH.
+    destruct (Nat.ltb i i0) eqn:E1.
+    + apply Nat.ltb_lt in E1. assert (E2 : Nat.eqb i i0 = false) by (apply Nat.eqb_neq; lia).
+      assert (E3 : Nat.ltb i (S i0) = true) by (apply Nat.ltb_lt; lia). rewrite E2, E3. reflexivity.
+    + apply Nat.ltb_ge in E1. destruct (Nat.eqb i i0) eqn:E2.
+      * apply Nat.eqb_eq in E2. subst i0.
+        assert (E3 : Nat.ltb i (S i) = true) by (apply Nat.ltb_lt; lia). rewrite E3, Nat.sub_diag.
+        cbn. apply app_nil_r.
+      * apply Nat.eqb_neq in E2. assert (E3 : Nat.ltb i (S i0) = false) by (apply Nat.ltb_ge; lia).
+        rewrite E3. replace (i - i0)%nat with (S (i - S i0)) by lia. reflexivity.
+Qed.
+
+Lemma jeq_items_nth a : forall b, length a = length b ->
+  (forall i x y, nth_error a i = Some x -> nth_error b i = Some y -> jeq x y) -> jeq_items a b.
+Proof.
+  induction a as [|x r IH]; intros [|y t] Hl H; cbn in Hl; try discriminate; constructor.
+  - apply (H 0%nat); reflexivity.
+  - apply IH; [lia|]. intros i x0 y0 H1 H2. apply (H (S i)); assumption.
+Qed.
+
+Lemma Forall2_nth {A B} (P : A -> B -> Prop) l l' : Forall2 P l l' ->
+  forall i a b, nth_error l i = Some a -> nth_error l' i = Some b -> P a b.
+Proof.
+  induction 1 as [|x y l l' Hxy HF IH]; intros [|i] a b H1 H2; cbn in *; try discriminate.
+  - inversion H1; inversion H2; subst. exact Hxy.
+  - eapply IH; eauto.
+Qed.
+
+Lemma level_any_items I refs :
+  Forall2 (fun (x : ir) j => AnyOrd (fst x) (map core (snd x)) j) I refs ->
+  Forall c_ok (map core (ilift I 0)) ->
+  AnyOrd (JList (map fst I)) (map core (ilift I 0)) (JList refs).
+Proof.
+  intros HF Hok cs' m' Hp H.
+  destruct (list_sim cs' (map fst I) m') as [js_r [-> [Hlen H3]]]; [|exact H|].
+  { eapply Permutation_Forall; [exact Hp|exact Hok]. }
+  constructor. apply jeq_items_nth.
+  - rewrite Hlen, map_length. eapply Forall2_len. exact HF.
+  - intros i x y Hx Hy.
+    assert (Hi : exists xi, nth_error I i = Some xi).
+    { destruct (nth_error I i) as [xi|] eqn:E; [eauto|]. exfalso.
+      apply nth_error_None in E. rewrite (Forall2_len _ _ _ HF) in E.
+      apply nth_error_None in E. congruence. }
+    destruct Hi as [xi Hxi].
+    destruct (H3 i (fst xi)) as [v [Hv Ha]].
+    { apply map_nth_error. exact Hxi. }
+    rewrite Hx in Hv. inversion Hv; subst v.
+    pose proof (Forall2_nth _ _ _ HF i xi y Hxi Hy) as Hany.
+    eapply Hany; [|exact Ha].
+    eapply Permutation_trans; [|apply cproj_idx_perm; exact Hp].
+    rewrite cproj_idx_ilift. replace (Nat.ltb i 0) with false by (symmetry; apply Nat.ltb_ge; lia).
+    rewrite Nat.sub_0_r, Hxi. apply Permutation_refl.
+Qed.
+
+(* initial value + payloads reassemble to the reference value: in the order the model lists them, and in
+   every other order in which the merge can be carried out *)
 Definition Good (j0 : json) (pls : list payload) (j : json) : Prop :=
-  Forall pl_ok pls /\ exists m, apply_pls j0 pls = Some m /\ jeq m j.
+  Forall pl_ok pls /\ (exists m, apply_pls j0 pls = Some m /\ jeq m j) /\ AnyOrd j0 (map core pls) j.
 
 Lemma Good_refl j : Good j [] j.
-Proof. split; [constructor|]. exists j. split; [reflexivity|apply jeq_refl]. Qed.
+Proof.
+  split; [constructor|]. split; [exists j; split; [reflexivity|apply jeq_refl]|apply AnyOrd_nil].
+Qed.
 
 Lemma Good_null pls j : Good JNull pls j -> j = JNull.
 Proof.
-  intros [Hok [m [Ha Hj]]]. destruct pls as [|p r].
+  intros [Hok [[m [Ha Hj]] _]]. destruct pls as [|p r].
   - cbn in Ha. inversion Ha; subst. apply jeq_null_l. exact Hj.
   - exfalso. inversion Hok as [|x l [[kvs Hd] _] _]; subst.
     cbn [apply_pls] in Ha. unfold apply_pl in Ha. rewrite Hd in Ha.
@@ -688,20 +1213,28 @@ Proof.
   right. eexists. split; reflexivity.
 Qed.
 
+Definition AnyE (e : er) (j : json) : Prop := AnyOrd (er_val e) (map core (er_pls e)) j.
+
 Lemma ents_rel efp efd g : Forall (erel efp efd) g ->
   exists ms, Forall2 Asm (ents efd g) ms /\
              jeq_kvs (efin (ents efd g) ms) (ekvs (ents efp g)) /\
-             Forall pl_ok (elift (ents efd g)).
+             Forall pl_ok (elift (ents efd g)) /\
+             map er_key (ents efd g) = map fst (ekvs (ents efp g)) /\
+             Forall2 AnyE (ents efd g) (map snd (ekvs (ents efp g))).
 Proof.
-  induction 1 as [|[k fs] rest He HF [ms [H1 [H2 H3]]]]; cbn [ents flat_map fst snd].
+  induction 1 as [|[k fs] rest He HF [ms [H1 [H2 [H3 [H4 H5]]]]]]; cbn [ents flat_map fst snd].
   - exists []. repeat split; constructor.
   - fold (ents efd rest). fold (ents efp rest).
-    destruct He as [[Hp Hd]|[j [cs [pl [rv [j0 [cs0 [pl0 [rv0 [Hp [Hd [Hok [m [Hm Hj]]]]]]]]]]]]]];
+    destruct He as [[Hp Hd]|[j [cs [pl [rv [j0 [cs0 [pl0 [rv0 [Hp [Hd [Hok [[m [Hm Hj]] Hany]]]]]]]]]]]]];
       cbn [snd] in Hp, Hd; rewrite Hp, Hd; cbn [app].
     + exists ms. auto.
     + exists (m :: ms). split; [constructor; [exact Hm|exact H1]|]. split.
-      * cbn. constructor; assumption.
-      * cbn [elift flat_map]. apply Forall_app. split; [apply pl_ok_pre; exact Hok|exact H3].
+      { cbn. constructor; assumption. }
+      split.
+      { cbn [elift flat_map]. apply Forall_app. split; [apply pl_ok_pre; exact Hok|exact H3]. }
+      split.
+      { cbn [map ekvs er_key fst]. f_equal. exact H4. }
+      cbn [map ekvs snd]. constructor; [exact Hany|exact H5].
 Qed.
 
 Lemma map_flat_map {A B C} (f : B -> C) (g : A -> list B) l :
@@ -722,21 +1255,27 @@ Lemma deferred_rel efp (efd : list N -> list dfield -> option xfres) groups GL :
     jeq_kvs (flat_map (fun g => efin (snd (fst g)) (snd g)) GL')
             (flat_map (fun sg => ekvs (ents efp (snd sg))) groups) /\
     subl (flat_map (fun g => map er_key (snd (fst g))) GL') (flat_map (fun sg => map fst (snd sg)) groups) /\
-    Forall pl_ok (flat_map (fun g : payload * list er => fst g :: map nest_pl (elift (snd g))) GL).
+    Forall pl_ok (flat_map (fun g : payload * list er => fst g :: map nest_pl (elift (snd g))) GL) /\
+    map er_key (concat (map snd GL)) = map fst (flat_map (fun sg => ekvs (ents efp (snd sg))) groups) /\
+    Forall2 AnyE (concat (map snd GL)) (map snd (flat_map (fun sg => ekvs (ents efp (snd sg))) groups)).
 Proof.
   induction 1 as [|[sdu g] [P E] groups GL [Hh [He HE]] HF2 IH]; intro HF.
   - exists []. repeat split; constructor.
   - inversion HF as [|x l Hg Hr]; subst. cbn [fst snd] in *. subst E.
-    destruct (IH Hr) as [GL' [G1 [G2 [G3 [G4 G5]]]]].
-    destruct (ents_rel _ _ _ Hg) as [ms [M1 [M2 M3]]].
-    exists ((P, ents (efd (Plan.ids sdu)) g, ms) :: GL'). cbn [map flat_map fst snd].
+    destruct (IH Hr) as [GL' [G1 [G2 [G3 [G4 [G5 [G6 G7]]]]]]].
+    destruct (ents_rel _ _ _ Hg) as [ms [M1 [M2 [M3 [M4 M5]]]]].
+    exists ((P, ents (efd (Plan.ids sdu)) g, ms) :: GL'). cbn [map flat_map concat fst snd].
     split; [rewrite G1; reflexivity|].
     split; [constructor; [split; assumption|exact G2]|].
     split; [apply jeq_kvs_app; assumption|].
     split; [apply subl_app; [apply ents_keys_subl|exact G4]|].
-    constructor.
-    + split; [|exact He]. destruct Hh as [_ Hd]. eexists. exact Hd.
-    + apply Forall_app. split; [apply pl_ok_nest; exact M3|exact G5].
+    split.
+    { constructor.
+      + split; [|exact He]. destruct Hh as [_ Hd]. eexists. exact Hd.
+      + apply Forall_app. split; [apply pl_ok_nest; exact M3|exact G5]. }
+    split.
+    { rewrite !map_app, M4, G6. reflexivity. }
+    rewrite map_app. apply Forall2_app; assumption.
 Qed.
 
 Lemma items_rel (cfp cfd : data -> option xout) items :
@@ -745,15 +1284,38 @@ Lemma items_rel (cfp cfd : data -> option xout) items :
             cfd x = Some ((CVal j0, [], cs0), pls, rv0) /\ Good j0 pls j) items ->
   exists ms, Forall2 (fun (x : ir) m => apply_pls (fst x) (snd x) = Some m) (irs cfd items) ms /\
              jeq_items ms (map fst (irs cfp items)) /\
-             forall i, Forall pl_ok (ilift (irs cfd items) i).
+             (forall i, Forall pl_ok (ilift (irs cfd items) i)) /\
+             Forall2 (fun (x : ir) j => AnyOrd (fst x) (map core (snd x)) j) (irs cfd items)
+                     (map fst (irs cfp items)).
 Proof.
   induction 1 as [|x rest Hx HF IH].
   - exists []. repeat split; constructor.
-  - destruct IH as [ms [I1 [I2 I3]]].
-    destruct Hx as [j [cs1 [pl1 [rv1 [j0 [cs2 [pls [rv2 [Hp [Hd [Hk [m [Hm Hj]]]]]]]]]]]]].
+  - destruct IH as [ms [I1 [I2 [I3 I4]]]].
+    destruct Hx as [j [cs1 [pl1 [rv1 [j0 [cs2 [pls [rv2 [Hp [Hd [Hk [[m [Hm Hj]] Hany]]]]]]]]]]]].
     unfold irs. cbn [flat_map]. rewrite Hp, Hd. fold (irs cfd rest). fold (irs cfp rest). cbn [app map fst].
     exists (m :: ms). split; [constructor; [exact Hm|exact I1]|]. split; [constructor; assumption|].
-    intro i. cbn [ilift snd]. apply Forall_app. split; [apply pl_ok_pre; exact Hk|apply I3].
+    split.
+    + intro i. cbn [ilift snd]. apply Forall_app. split; [apply pl_ok_pre; exact Hk|apply I3].
+    + constructor; [exact Hany|exact I4].
+Qed.
+
+Lemma combine_fst_snd {A B} (l : list (A * B)) : combine (map fst l) (map snd l) = l.
+Proof. induction l as [|[a b] r IH]; cbn; [reflexivity|]. rewrite IH. reflexivity. Qed.
+
+Lemma c_ok_core pls : Forall pl_ok pls -> Forall c_ok (map core pls).
+Proof.
+  intro H. apply Forall_map. eapply Forall_impl; [|exact H]. intros p [[kvs Hd] _]. exists kvs. exact Hd.
+Qed.
+
+Lemma core_canon E0 (GL : list (payload * list er)) :
+  Forall (fun g => is_head (fst g) (snd g)) GL ->
+  map core (elift E0 ++ flat_map (fun g : payload * list er => fst g :: map nest_pl (elift (snd g))) GL)
+  = ccanon E0 (map snd GL).
+Proof.
+  intro H. unfold ccanon. rewrite map_app, core_elift. f_equal.
+  induction H as [|[P E] r [Hp Hd] HF IH]; cbn [flat_map map fst snd]; [reflexivity|].
+  rewrite map_app, core_nest, core_elift, IH. unfold core at 1. cbn [fst snd] in Hp, Hd. rewrite Hp, Hd.
+  reflexivity.
 Qed.
 
 Section Reassembly.
@@ -844,8 +1406,8 @@ Section Reassembly.
       intros e. apply erel_eok. }
     change (fun par : list N => dexec_field s frags cv true f tn obj par b' dp) with efd.
     rewrite Hdi.
-    destruct (ents_rel _ _ _ Hinit) as [ms0 [M1 [M2 M3]]].
-    destruct (deferred_rel efp efd groups GL HGL Hgroups) as [GL' [G1 [G2 [G3 [G4 G5]]]]].
+    destruct (ents_rel _ _ _ Hinit) as [ms0 [M1 [M2 [M3 [M4 M5]]]]].
+    destruct (deferred_rel efp efd groups GL HGL Hgroups) as [GL' [G1 [G2 [G3 [G4 [G5 [G6 G7]]]]]]].
     eexists _, _, _, _, _. split; [reflexivity|]. split; [reflexivity|].
     (* keys are distinct across the parts of the plan *)
     assert (Hkeys : NoDup (map er_key (ents (efd S) init) ++
@@ -854,8 +1416,16 @@ Section Reassembly.
       assert (Hn : NoDup (map fst (init ++ flat_map snd groups))).
       { eapply Permutation_NoDup; [|exact Hdg]. apply Permutation_map. apply Permutation_sym. exact Hperm. }
       rewrite map_app, map_flat_map in Hn. exact Hn. }
-    split.
-    - apply Forall_app. split; [exact M3|exact G5].
+    set (bref := ekvs (ents efp init) ++ flat_map (fun sg => ekvs (ents efp (snd sg))) groups).
+    assert (Hbref : Permutation bref (ekvs (ents efp dg))).
+    { apply Permutation_trans with (ekvs (ents efp (init ++ flat_map snd groups))).
+      - unfold bref. rewrite ents_app. unfold ekvs. rewrite map_app. apply Permutation_app_head.
+        unfold ents. rewrite flat_map_flat_map, map_flat_map. apply Permutation_refl.
+      - unfold ekvs, ents. apply Permutation_map. apply Permutation_flat_map. exact Hperm. }
+    assert (Hallok : Forall pl_ok (elift (ents (efd S) init) ++
+                       flat_map (fun g : payload * list er => fst g :: map nest_pl (elift (snd g))) GL)).
+    { apply Forall_app. split; [exact M3|exact G5]. }
+    split; [exact Hallok|]. split.
     - exists (JObj (efin (ents (efd S) init) ms0 ++ flat_map (fun g : gres => efin (snd (fst g)) (snd g)) GL')).
       split.
       + rewrite apply_pls_app.
@@ -863,12 +1433,19 @@ Section Reassembly.
         rewrite L1 by (eapply NoDup_app_l; exact Hkeys).
         rewrite <- G1, flat_map_map. apply level_groups; [exact G2|].
         rewrite (efin_keys _ _ M1). exact Hkeys.
-      + apply jeq_obj with (b := ekvs (ents efp init) ++ flat_map (fun sg => ekvs (ents efp (snd sg))) groups).
-        * apply jeq_kvs_app; assumption.
-        * apply Permutation_trans with (ekvs (ents efp (init ++ flat_map snd groups))).
-          -- rewrite ents_app. unfold ekvs. rewrite map_app. apply Permutation_app_head.
-             unfold ents. rewrite flat_map_flat_map, map_flat_map. apply Permutation_refl.
-          -- unfold ekvs, ents. apply Permutation_map. apply Permutation_flat_map. exact Hperm.
+      + apply jeq_obj with (b := bref); [apply jeq_kvs_app; assumption|exact Hbref].
+    - (* any applicable order *)
+      assert (Hheads : Forall (fun g : payload * list er => is_head (fst g) (snd g)) GL).
+      { clear - HGL. induction HGL as [|x y l l' [Hh _] _ IH]; constructor; assumption. }
+      rewrite (core_canon _ _ Hheads).
+      assert (Hcat : concat (map snd GL) = flat_map (fun g : gres => snd (fst g)) GL').
+      { rewrite <- G1, map_map, <- flat_map_concat_map. reflexivity. }
+      apply level_any with (refs := map snd (ekvs (ents efp init))
+                                    ++ map snd (flat_map (fun sg => ekvs (ents efp (snd sg))) groups)).
+      + rewrite map_app, Hcat, map_flat_map. exact Hkeys.
+      + apply Forall2_app; assumption.
+      + rewrite <- (core_canon _ _ Hheads). apply c_ok_core. exact Hallok.
+      + rewrite map_app, M4, G6, <- !map_app. fold bref. rewrite combine_fst_snd. exact Hbref.
   Qed.
 
   Lemma step_F f : C_stmt f -> F_stmt (S f).
@@ -1584,4 +2161,458 @@ Proof.
   unfold merged_erased in He. cbn [flat_map snd] in He. rewrite app_nil_r in He.
   destruct o as [[[j1|] es1] cs1]; inversion H; subst; clear H; (split; [reflexivity|]);
     rewrite (He eq_refl); reflexivity.
+Qed.
+
+(* ================================================================== all @defer disabled: the incremental
+   executor is the base executor and delivers no payload *)
+
+Lemma filtered_set_none fs : (forall f, In f fs -> df_du f = []) -> Plan.filtered_set (details_of fs) = [].
+Proof.
+  intro H. destruct fs as [|f r]; [reflexivity|].
+  unfold Plan.filtered_set, details_of. cbn [map]. rewrite (H f (or_introl eq_refl)). reflexivity.
+Qed.
+
+Lemma plan_all_initial orig : forall init groups,
+  (forall e, In e orig -> Plan.filtered_set (snd e) = []) ->
+  Plan.plan orig [] init groups = (init ++ orig, groups).
+Proof.
+  induction orig as [|[k fs] r IH]; intros init groups H; cbn [Plan.plan].
+  - rewrite app_nil_r. reflexivity.
+  - pose proof (H (k, fs) (or_introl eq_refl)) as Hk. cbn [snd] in Hk. cbv zeta. rewrite Hk.
+    cbn [Plan.ids map Plan.set_eq Plan.subset forallb andb].
+    rewrite IH; [rewrite <- app_assoc; reflexivity|]. intros e He. apply H. right. exact He.
+Qed.
+
+Definition plain_g (cv : list (str * value)) (dg : dgrouped) : Prop :=
+  Forall (fun e => Forall (fun f => df_du f = [] /\ inactive_sels cv (fs_sels (df_fs f)) = true) (snd e)) dg.
+
+Lemma plan_of_plain cv dg : plain_g cv dg -> plan_of dg [] = (dg, []).
+Proof.
+  intro H. unfold plan_of, Plan.build_execution_plan. rewrite plan_all_initial.
+  - cbn [fst snd app map]. rewrite resolve_to_gfs. reflexivity.
+  - intros [i ds] He. unfold to_gfs in He. apply in_combine_r in He. apply in_map_iff in He as [e0 [<- He0]].
+    cbn [snd]. apply filtered_set_none. intros f Hf. unfold plain_g in H. rewrite Forall_forall in H.
+    specialize (H e0 He0). rewrite Forall_forall in H. apply (H f Hf).
+Qed.
+
+Lemma add_dfield_plain cv k f dg :
+  plain_g cv dg -> df_du f = [] -> inactive_sels cv (fs_sels (df_fs f)) = true -> plain_g cv (add_dfield k f dg).
+Proof.
+  intros H H1 H2. induction H as [|[k' fs] r He HF IH]; cbn [add_dfield].
+  - constructor; [|constructor]. cbn. constructor; [split; assumption|constructor].
+  - destruct (str_eqb k k').
+    + constructor; [|exact HF]. cbn [snd] in *. apply Forall_app. split; [exact He|].
+      constructor; [split; assumption|constructor].
+    + constructor; assumption.
+Qed.
+
+Lemma find_frag_In name frags fr : find_frag name frags = Some fr -> In fr frags.
+Proof.
+  induction frags as [|f r IH]; cbn; [discriminate|].
+  destruct (str_eqb name (fr_name f)); [intro H; inversion H; left; reflexivity|].
+  intro H. right. apply IH. exact H.
+Qed.
+
+Section Inactive.
+  Variable s : schema.
+  Variable frags : list fragment.
+  Variable cv : list (str * value).
+  Hypothesis Hfrags : forall fr, In fr frags -> inactive_sels cv (fr_sels fr) = true.
+
+  (* collection state without any deferred visit *)
+  Definition Ist (st : cstate) : Prop :=
+    c_new st = [] /\ c_rev st = false /\ (forall name, lookup name (c_vis st) <> Some true) /\
+    plain_g cv (c_g st).
+
+  Section ICollect.
+    Variable tn : str.
+    Variable base : N.
+    Variable depth : nat.
+
+    Lemma dcollect_list_inactive rec :
+      (forall sels st st', inactive_sels cv sels = true -> Ist st -> rec [] sels st = Some st' -> Ist st') ->
+      forall sels st st', inactive_sels cv sels = true -> Ist st ->
+        dcollect_list s frags cv tn base depth rec [] sels st = Some st' -> Ist st'.
+    Proof.
+      intro Hrec. induction sels as [|sel rest IH]; intros st st' Hin HI H; cbn [dcollect_list] in H.
+      - inversion H; subst. exact HI.
+      - cbn [inactive_sels forallb] in Hin. apply andb_true_iff in Hin as [Hsel Hrest].
+        fold (inactive_sels cv rest) in Hrest.
+        destruct sel as [al name args dirs sub | name dirs | tc dirs sub]; cbn [inactive_sel] in Hsel.
+        + destruct (should_include cv dirs); [|eapply IH; eauto].
+          eapply IH; [exact Hrest| |exact H].
+          destruct HI as [I1 [I2 [I3 I4]]]. repeat split; try assumption.
+          cbn [c_g]. apply add_dfield_plain; [exact I4|reflexivity|exact Hsel].
+        + destruct (negb (should_include cv dirs)); [eapply IH; eauto|].
+          destruct (find_frag name frags) as [fr|] eqn:Ef; [|eapply IH; eauto].
+          destruct (negb (cond_matches s (fr_cond fr) tn)); [eapply IH; eauto|].
+          destruct (defer_active cv dirs); [discriminate|].
+          destruct HI as [I1 [I2 [I3 I4]]].
+          destruct (lookup name (c_vis st)) as [[|]|] eqn:El;
+            [exfalso; apply (I3 name); exact El|eapply IH; eauto; repeat split; assumption|].
+          destruct (rec [] (fr_sels fr) _) as [st1|] eqn:E1; [|discriminate].
+          eapply IH; [exact Hrest| |exact H]. eapply Hrec; [|  |exact E1].
+          * apply Hfrags. eapply find_frag_In. exact Ef.
+          * repeat split; cbn [c_new c_rev c_vis c_g]; try assumption.
+            -- rewrite I2. reflexivity.
+            -- intros x. cbn [lookup]. destruct (str_eqb x name); [discriminate|apply I3].
+        + apply andb_true_iff in Hsel as [Hd Hsub]. fold (inactive_sels cv sub) in Hsub.
+          destruct (should_include cv dirs && match tc with Some c => cond_matches s c tn | None => true end);
+            [|eapply IH; eauto].
+          destruct (defer_active cv dirs); [discriminate|].
+          destruct (rec [] sub st) as [st1|] eqn:E1; [|discriminate].
+          eapply IH; [exact Hrest| |exact H]. exact (Hrec sub st st1 Hsub HI E1).
+    Qed.
+
+    Lemma dcollect_inactive fuel : forall sels st st', inactive_sels cv sels = true -> Ist st ->
+      dcollect s frags cv tn base depth fuel [] sels st = Some st' -> Ist st'.
+    Proof.
+      induction fuel as [|f IH]; intros sels st st' Hin HI H; cbn [dcollect] in H; [discriminate|].
+      eapply dcollect_list_inactive; eauto.
+    Qed.
+
+    Definition plain_srcs (srcs : list (duchain * list selection)) : Prop :=
+      Forall (fun x => fst x = [] /\ inactive_sels cv (snd x) = true) srcs.
+
+    Lemma dcollect_srcs_inactive fuel srcs : forall st st', plain_srcs srcs -> Ist st ->
+      dcollect_srcs s frags cv tn base depth fuel srcs st = Some st' -> Ist st'.
+    Proof.
+      induction srcs as [|[du sels] r IH]; intros st st' Hs HI H; cbn [dcollect_srcs] in H.
+      - inversion H; subst. exact HI.
+      - inversion Hs as [|x l [Hd Hi] Hr]; subst. cbn [fst snd] in *. subst du.
+        destruct (dcollect s frags cv tn base depth fuel [] sels st) as [st1|] eqn:E; [|discriminate].
+        eapply IH; [exact Hr| |exact H]. eapply dcollect_inactive; eauto.
+    Qed.
+  End ICollect.
+
+  Lemma Ist_init : Ist cs0.
+  Proof. repeat split; try reflexivity; [intros name; discriminate|constructor]. Qed.
+
+  Definition plain_fs (fs : list dfield) : Prop :=
+    Forall (fun f => df_du f = [] /\ inactive_sels cv (fs_sels (df_fs f)) = true) fs.
+
+  Lemma plain_srcs_of fs : plain_fs fs -> plain_srcs (srcs_of fs).
+  Proof. intro H. unfold plain_srcs, srcs_of. apply Forall_map. exact H. Qed.
+
+  Definition PS (f : nat) : Prop :=
+    forall tn obj srcs b dp, plain_srcs srcs ->
+      dexec_sels s frags cv true f tn obj srcs [] b dp = dexec_sels s frags cv false f tn obj srcs [] b dp /\
+      (forall o pl rv, dexec_sels s frags cv false f tn obj srcs [] b dp = Some (o, pl, rv) -> rv = false).
+
+  Definition PF (f : nat) : Prop :=
+    forall tn obj b dp fs, plain_fs fs ->
+      dexec_field s frags cv true f tn obj [] b dp fs = dexec_field s frags cv false f tn obj [] b dp fs /\
+      (forall o pl rv, dexec_field s frags cv false f tn obj [] b dp fs = Some (XRes (o, pl, rv)) -> rv = false).
+
+  Definition PC (f : nat) : Prop :=
+    forall t fs d b dp, plain_fs fs ->
+      dcomplete s frags cv true f t fs d [] b dp = dcomplete s frags cv false f t fs d [] b dp /\
+      (forall o pl rv, dcomplete s frags cv false f t fs d [] b dp = Some (o, pl, rv) -> rv = false).
+
+  Lemma dexec_groups_ext ef1 ef2 g :
+    (forall e, In e g -> ef1 (snd e) = ef2 (snd e)) -> dexec_groups ef1 g = dexec_groups ef2 g.
+  Proof.
+    induction g as [|[k fs] r IH]; intro H; cbn [dexec_groups]; [reflexivity|].
+    pose proof (H (k, fs) (or_introl eq_refl)) as Hk. cbn [snd] in Hk. rewrite Hk.
+    rewrite IH; [reflexivity|]. intros e He. apply H. right. exact He.
+  Qed.
+
+  Lemma dexec_groups_rv ef g : forall r es cs pls rv,
+    (forall e o pl rv, In e g -> ef (snd e) = Some (XRes (o, pl, rv)) -> rv = false) ->
+    dexec_groups ef g = Some (r, es, cs, pls, rv) -> rv = false.
+  Proof.
+    induction g as [|[k fs] rest IH]; intros r es cs pls rv Hf H; cbn [dexec_groups] in H.
+    - inversion H; reflexivity.
+    - assert (Hf' : forall e o pl rv, In e rest -> ef (snd e) = Some (XRes (o, pl, rv)) -> rv = false).
+      { intros e o pl0 rv0 He. apply Hf. right. exact He. }
+      destruct (ef fs) as [[|[[[[[j|] es0] cs0] pl0] rv0]]|] eqn:Ef; [| | |discriminate].
+      + eapply IH; eauto.
+      + pose proof (Hf (k, fs) _ _ _ (or_introl eq_refl) Ef) as ->.
+        destruct (dexec_groups ef rest) as [[[[[r' es'] cs'] pls'] rv']|] eqn:Er; [|discriminate].
+        inversion H; subst. cbn [orb]. eapply IH; [exact Hf'|]. first [exact Er|reflexivity].
+      + pose proof (Hf (k, fs) _ _ _ (or_introl eq_refl) Ef) as ->. inversion H; reflexivity.
+  Qed.
+
+  Lemma dcomplete_items_ext cf1 cf2 items : forall i,
+    (forall x, In x items -> cf1 x = cf2 x) -> dcomplete_items cf1 items i = dcomplete_items cf2 items i.
+  Proof.
+    induction items as [|x r IH]; intros i H; cbn [dcomplete_items]; [reflexivity|].
+    rewrite (H x (or_introl eq_refl)). rewrite (IH (S i)); [reflexivity|]. intros y Hy. apply H. right. exact Hy.
+  Qed.
+
+  Lemma dcomplete_items_rv cf items : forall i r es cs pls rv,
+    (forall x o pl rv, In x items -> cf x = Some (o, pl, rv) -> rv = false) ->
+    dcomplete_items cf items i = Some (r, es, cs, pls, rv) -> rv = false.
+  Proof.
+    induction items as [|x rest IH]; intros i r es cs pls rv Hf H; cbn [dcomplete_items] in H.
+    - inversion H; reflexivity.
+    - assert (Hf' : forall y o pl rv, In y rest -> cf y = Some (o, pl, rv) -> rv = false).
+      { intros y o pl0 rv0 Hy. apply Hf. right. exact Hy. }
+      destruct (cf x) as [[[[[[j|] es0] cs0] pl0] rv0]|] eqn:Ef; [| |discriminate].
+      + pose proof (Hf x _ _ _ (or_introl eq_refl) Ef) as ->.
+        destruct (dcomplete_items cf rest (S i)) as [[[[[r' es'] cs'] pls'] rv']|] eqn:Er; [|discriminate].
+        inversion H; subst. cbn [orb]. eapply IH; [exact Hf'|exact Er].
+      + pose proof (Hf x _ _ _ (or_introl eq_refl) Ef) as ->. inversion H; reflexivity.
+  Qed.
+
+  Lemma stepP_S f : PF f -> PS (S f).
+  Proof.
+    intros HF tn obj srcs b dp Hs. rewrite !dexec_sels_S.
+    destruct (dcollect_srcs s frags cv tn b dp f srcs cs0) as [st|] eqn:Ec; [|split; [reflexivity|discriminate]].
+    cbv zeta.
+    destruct (dcollect_srcs_inactive tn b dp f srcs cs0 st Hs Ist_init Ec) as [I1 [I2 [I3 I4]]].
+    rewrite (plan_of_plain cv _ I4). cbn [fst snd].
+    set (b' := b + N.of_nat (length (c_new st))).
+    assert (Hent : forall e, In e (c_g st) -> plain_fs (snd e)).
+    { intros e He. unfold plain_g in I4. rewrite Forall_forall in I4. exact (I4 e He). }
+    rewrite (dexec_groups_ext (dexec_field s frags cv true f tn obj [] b' dp)
+               (dexec_field s frags cv false f tn obj [] b' dp)).
+    2:{ intros e He. apply (HF tn obj b' dp (snd e) (Hent e He)). }
+    split; [reflexivity|].
+    intros o pl rv H. cbn [dexec_deferred] in H.
+    destruct (dexec_groups (dexec_field s frags cv false f tn obj [] b' dp) (c_g st))
+      as [[[[[r es] cs] pls] rv1]|] eqn:Eg; [|discriminate].
+    assert (Hrv : rv1 = false).
+    { eapply dexec_groups_rv; [|exact Eg]. intros e o1 pl1 rv2 He Hx.
+      eapply (HF tn obj b' dp (snd e) (Hent e He)). exact Hx. }
+    subst rv1. destruct r; inversion H; subst; rewrite I2; reflexivity.
+  Qed.
+
+  Lemma stepP_F f : PC f -> PF (S f).
+  Proof.
+    intros HC tn obj b dp fs Hfs. rewrite !dexec_field_S.
+    destruct fs as [|d1 fs']; [split; [reflexivity|discriminate]|].
+    cbv zeta.
+    destruct (str_eqb (fs_name (df_fs d1)) n_typename).
+    { split; [reflexivity|]. intros o pl rv H. inversion H; reflexivity. }
+    destruct (lookup_field s tn (fs_name (df_fs d1))) as [fd|]; [|split; [reflexivity|discriminate]].
+    destruct (coerce_args s cv (f_args fd) (fs_args (df_fs d1))) as [args|].
+    2:{ split; [reflexivity|]. intros o pl rv H. inversion H; reflexivity. }
+    destruct (HC (f_type fd) (d1 :: fs')
+                (match lookup (fs_name (df_fs d1)) obj with Some d => d | None => DNull end) b (S dp) Hfs) as [He Hr].
+    rewrite He. split; [reflexivity|]. intros o pl rv H.
+    destruct (dcomplete s frags cv false f (f_type fd) (d1 :: fs') _ [] b (S dp))
+      as [[[[[r es] cs] pls] rv1]|] eqn:Ecp; [|discriminate].
+    pose proof (Hr _ _ _ eq_refl) as ->. inversion H; reflexivity.
+  Qed.
+
+  Lemma stepP_C f : PC f -> PS f -> PC (S f).
+  Proof.
+    intros HC HS t fs d b dp Hfs. rewrite !dcomplete_S.
+    assert (Himm : forall x : xout, snd x = false ->
+              Some x = Some x /\ (forall o pl rv, Some x = Some (o, pl, rv) -> rv = false)).
+    { intros x Hx. split; [reflexivity|]. intros o pl rv H. inversion H; subst. exact Hx. }
+    assert (HN : forall t',
+      match dcomplete s frags cv true f t' fs d [] b dp with
+      | None => None
+      | Some ((CVal JNull, es, cs), _, rv) => Some ((CErr, es ++ [([], CauseNull)], cs), [], rv)
+      | Some x => Some x
+      end =
+      match dcomplete s frags cv false f t' fs d [] b dp with
+      | None => None
+      | Some ((CVal JNull, es, cs), _, rv) => Some ((CErr, es ++ [([], CauseNull)], cs), [], rv)
+      | Some x => Some x
+      end /\
+      (forall o pl rv,
+        match dcomplete s frags cv false f t' fs d [] b dp with
+        | None => None
+        | Some ((CVal JNull, es, cs), _, rv) => Some ((CErr, es ++ [([], CauseNull)], cs), [], rv)
+        | Some x => Some x
+        end = Some (o, pl, rv) -> rv = false)).
+    { intro t'. destruct (HC t' fs d b dp Hfs) as [He Hr]. rewrite He. split; [reflexivity|].
+      intros o pl rv H.
+      destruct (dcomplete s frags cv false f t' fs d [] b dp) as [[[[[r1 es1] cs1] pls1] rv1]|] eqn:Ecp;
+        [|discriminate].
+      pose proof (Hr _ _ _ eq_refl) as ->.
+      destruct r1 as [[| | | | | |]|]; inversion H; reflexivity. }
+    assert (HO : forall rt flds,
+      dexec_sels s frags cv true f rt flds (srcs_of fs) [] b dp
+      = dexec_sels s frags cv false f rt flds (srcs_of fs) [] b dp /\
+      (forall o pl rv, dexec_sels s frags cv false f rt flds (srcs_of fs) [] b dp = Some (o, pl, rv) -> rv = false)).
+    { intros rt flds. apply HS. apply plain_srcs_of. exact Hfs. }
+    destruct d as [|l|rt flds|items|]; [| | | |apply Himm; reflexivity].
+    - destruct t as [n|it|t']; [apply Himm; reflexivity|apply Himm; reflexivity|apply HN].
+    - destruct t as [n|it|t']; [|apply Himm; reflexivity|apply HN].
+      destruct (lookup_type s n) as [[sc|vals|ofs ifs|ifs|ms|idefs ioo]|];
+        try (apply Himm; reflexivity);
+        (destruct (complete_leaf _ l); apply Himm; reflexivity).
+    - destruct t as [n|it|t']; [|apply Himm; reflexivity|apply HN].
+      destruct (lookup_type s n) as [[sc|vals|ofs ifs|ifs|ms|idefs ioo]|];
+        try (apply Himm; reflexivity).
+      + apply HO.
+      + destruct (is_object s rt && possible s n rt); [apply HO|apply Himm; reflexivity].
+      + destruct (is_object s rt && possible s n rt); [apply HO|apply Himm; reflexivity].
+    - destruct t as [n|it|t']; [| |apply HN].
+      { destruct (lookup_type s n) as [[sc|vals|ofs ifs|ifs|ms|idefs ioo]|]; apply Himm; reflexivity. }
+      rewrite (dcomplete_items_ext
+                 (fun x => option_map (xcatch it) (dcomplete s frags cv true f it fs x [] b (S dp)))
+                 (fun x => option_map (xcatch it) (dcomplete s frags cv false f it fs x [] b (S dp)))).
+      2:{ intros x _. destruct (HC it fs x b (S dp) Hfs) as [He _]. rewrite He. reflexivity. }
+      split; [reflexivity|]. intros o pl rv H.
+      destruct (dcomplete_items _ items 0) as [[[[[r es] cs] pls] rv1]|] eqn:Ei; [|discriminate].
+      assert (Hrv : rv1 = false).
+      { eapply dcomplete_items_rv; [|exact Ei]. intros x o1 pl1 rv2 _ Hx. cbn beta in Hx.
+        destruct (HC it fs x b (S dp) Hfs) as [_ Hr].
+        destruct (dcomplete s frags cv false f it fs x [] b (S dp)) as [[[[[r1 es1] cs1] pls1] rv3]|] eqn:Ecp;
+          [|cbn in Hx; discriminate].
+        pose proof (Hr _ _ _ eq_refl) as ->. cbn [option_map xcatch] in Hx. inversion Hx; reflexivity. }
+      subst rv1. destruct r; inversion H; reflexivity.
+  Qed.
+
+  Theorem inactive_all : forall f, PS f /\ PF f /\ PC f.
+  Proof.
+    induction f as [|f [IHs [IHf IHc]]].
+    - repeat split; intros; try reflexivity; discriminate.
+    - split; [apply stepP_S; exact IHf|]. split; [apply stepP_F; exact IHc|apply stepP_C; assumption].
+  Qed.
+End Inactive.
+
+Theorem inactive_fuel fuel s d vars root :
+  (forall cv, coerce_variable_values s (d_vars d) vars = Some cv -> inactive_doc cv d = true) ->
+  dexecute_fuel true fuel s d vars root = dexecute_fuel false fuel s d vars root /\
+  (forall j es cs pl rv, dexecute_fuel false fuel s d vars root = DResp j es cs pl rv -> rv = false).
+Proof.
+  intro Hin. unfold dexecute_fuel.
+  destruct (coerce_variable_values s (d_vars d) vars) as [cv|]; [|split; [reflexivity|discriminate]].
+  destruct (root_type s (d_kind d)) as [tn|]; [|split; [reflexivity|discriminate]].
+  destruct (negb (is_object s tn)); [split; [reflexivity|discriminate]|].
+  specialize (Hin cv eq_refl). unfold inactive_doc in Hin. apply andb_true_iff in Hin as [Hs Hf].
+  assert (Hfrags : forall fr, In fr (d_frags d) -> inactive_sels cv (fr_sels fr) = true).
+  { rewrite forallb_forall in Hf. exact Hf. }
+  destruct (inactive_all s (d_frags d) cv Hfrags fuel) as [HS _].
+  set (flds := match root with DObj _ f => f | _ => [] end).
+  destruct (HS tn flds [([], d_sels d)] 0 0%nat) as [He Hr].
+  { constructor; [split; [reflexivity|exact Hs]|constructor]. }
+  rewrite He. split; [reflexivity|]. intros j es cs pl rv H.
+  destruct (dexec_sels s (d_frags d) cv false fuel tn flds [([], d_sels d)] [] 0 0) as [[[o pls] rv1]|] eqn:E;
+    [|discriminate].
+  pose proof (Hr _ _ _ eq_refl) as ->. destruct o as [[[j1|] es1] cs1]; inversion H; reflexivity.
+Qed.
+
+(* documents without @defer *)
+Lemma no_defer_erase ds : no_defer ds = true -> erase_dirs ds = ds.
+Proof.
+  unfold no_defer, erase_dirs. induction ds as [|d r IH]; cbn [forallb filter]; [reflexivity|].
+  intro H. apply andb_true_iff in H as [H1 H2]. rewrite H1, IH by exact H2. reflexivity.
+Qed.
+
+Lemma no_defer_find ds : no_defer ds = true -> find_dir n_defer ds = None.
+Proof.
+  unfold no_defer. induction ds as [|[n args] r IH]; cbn [forallb find_dir fst]; [reflexivity|].
+  intro H. apply andb_true_iff in H as [H1 H2]. apply negb_true_iff in H1.
+  assert (E : str_eqb n_defer n = false).
+  { apply str_eqb_neq. intro Hx. apply str_eqb_neq in H1. apply H1. symmetry. exact Hx. }
+  rewrite E. apply IH. exact H2.
+Qed.
+
+Lemma defer_free_sel_erase : forall x, defer_free_sel x = true -> erase_sel x = x.
+Proof.
+  fix IH 1. intros [al name args dirs sub | name dirs | tc dirs sub]; cbn [defer_free_sel erase_sel]; intro H.
+  - f_equal. induction sub as [|y r IHr]; cbn in *; [reflexivity|].
+    apply andb_true_iff in H as [H1 H2]. rewrite IH, IHr by assumption. reflexivity.
+  - rewrite no_defer_erase by exact H. reflexivity.
+  - apply andb_true_iff in H as [H0 H]. rewrite no_defer_erase by exact H0. f_equal.
+    induction sub as [|y r IHr]; cbn in *; [reflexivity|].
+    apply andb_true_iff in H as [H1 H2]. rewrite IH, IHr by assumption. reflexivity.
+Qed.
+
+Lemma defer_free_sels_erase l : forallb defer_free_sel l = true -> erase_sels l = l.
+Proof.
+  unfold erase_sels. induction l as [|y r IH]; cbn; [reflexivity|]. intro H.
+  apply andb_true_iff in H as [H1 H2]. rewrite defer_free_sel_erase, IH by assumption. reflexivity.
+Qed.
+
+Theorem defer_free_erase d : defer_free d = true -> erase_defer d = d.
+Proof.
+  destruct d as [k vs sels frs]. unfold defer_free, erase_defer. cbn [d_kind d_vars d_sels d_frags].
+  intro H. apply andb_true_iff in H as [H1 H2]. rewrite defer_free_sels_erase by exact H1. f_equal.
+  induction frs as [|[n c b] r IH]; cbn in *; [reflexivity|].
+  apply andb_true_iff in H2 as [H3 H4]. rewrite IH by exact H4. unfold erase_frag. cbn.
+  rewrite defer_free_sels_erase by exact H3. reflexivity.
+Qed.
+
+Lemma defer_free_sel_inactive cv : forall x, defer_free_sel x = true -> inactive_sel cv x = true.
+Proof.
+  fix IH 1. intros [al name args dirs sub | name dirs | tc dirs sub]; cbn [defer_free_sel inactive_sel]; intro H.
+  - induction sub as [|y r IHr]; cbn in *; [reflexivity|].
+    apply andb_true_iff in H as [H1 H2]. rewrite IH, IHr by assumption. reflexivity.
+  - unfold defer_active. rewrite no_defer_find by exact H. reflexivity.
+  - apply andb_true_iff in H as [H0 H]. unfold defer_active. rewrite no_defer_find by exact H0. cbn [andb].
+    induction sub as [|y r IHr]; cbn in *; [reflexivity|].
+    apply andb_true_iff in H as [H1 H2]. rewrite IH, IHr by assumption. reflexivity.
+Qed.
+
+Lemma defer_free_inactive cv d : defer_free d = true -> inactive_doc cv d = true.
+Proof.
+  unfold defer_free, inactive_doc, inactive_sels. intro H. apply andb_true_iff in H as [H1 H2].
+  apply andb_true_iff. split.
+  - rewrite forallb_forall in *. intros x Hx. apply defer_free_sel_inactive. apply H1. exact Hx.
+  - rewrite forallb_forall in *. intros fr Hfr. specialize (H2 fr Hfr).
+    rewrite forallb_forall in *. intros x Hx. apply defer_free_sel_inactive. apply H2. exact Hx.
+Qed.
+
+(* ------------------------------------------------------------------ a response key with a non-deferred
+   occurrence is executed by the initial executor *)
+Theorem nondeferred_in_initial dg k fs :
+  In (k, fs) dg -> (exists f, In f fs /\ df_du f = []) -> In (k, fs) (fst (plan_of dg [])).
+Proof.
+  intros Hin [f [Hf Hdu]].
+  pose proof (plan_of_partition dg []) as Hp.
+  assert (Hin' : In (k, fs) (fst (plan_of dg []) ++ flat_map snd (snd (plan_of dg [])))).
+  { eapply Permutation_in; [apply Permutation_sym; exact Hp|exact Hin]. }
+  apply in_app_or in Hin' as [H|H]; [exact H|]. exfalso.
+  (* it cannot be in a deferred group: its filtered set is empty = the parent set, so the plan keeps
+     every entry with these details in the initial part *)
+  unfold plan_of in H. cbn [snd] in H. rewrite flat_map_snd_map in H.
+  apply in_flat_map in H as [[sdu g] [Hg He]]. cbn [snd] in He.
+  apply in_flat_map in He as [[i ds] [Hi Hr]].
+  unfold resolve in Hr. cbn [fst] in Hr.
+  destruct (nth_error dg (N.to_nat i)) as [x|] eqn:En; [|destruct Hr]. destruct Hr as [Hr|[]]. subst x.
+  (* the entry i of the plan's group has the details of (k, fs) *)
+  assert (Hds : In (i, ds) (to_gfs dg)).
+  { pose proof (PlanProps.plan_partition (to_gfs dg) []) as Hpp.
+    eapply Permutation_in; [exact Hpp|]. unfold PlanProps.entries. apply in_or_app. right.
+    apply in_flat_map. exists (sdu, g). split; assumption. }
+  assert (Hdet : ds = details_of fs).
+  { unfold to_gfs in Hds. clear - Hds En.
+    assert (G : forall (l : dgrouped) pre, In (i, ds) (combine (map N.of_nat (seq (length pre) (length l)))
+                                                  (map (fun e => details_of (snd e)) l)) ->
+                nth_error (pre ++ l) (N.to_nat i) = Some (k, fs) -> ds = details_of fs).
+    { induction l as [|x r IH]; intros pre H1 H2; cbn in H1; [destruct H1|].
+      destruct H1 as [H1|H1].
+      - inversion H1; subst. rewrite Nnat.Nat2N.id in H2. rewrite nth_error_app2 in H2 by apply Nat.le_refl.
+        rewrite Nat.sub_diag in H2. cbn in H2. inversion H2; subst. reflexivity.
+      - apply (IH (pre ++ [x])).
+        + rewrite app_length. cbn [length]. rewrite Nat.add_1_r. exact H1.
+        + rewrite <- app_assoc. exact H2. }
+    exact (G dg [] Hds En). }
+  subst ds.
+  (* entries with a non-deferred field are initial *)
+  pose proof (PlanProps.initial_iff_parent_set (to_gfs dg) []) as Hinit.
+  assert (Hfilt : Plan.set_eq (Plan.ids (Plan.filtered_set (details_of fs))) [] = true).
+  { rewrite PlanProps.non_deferred_field_empty_set; [reflexivity|].
+    unfold details_of. apply in_map_iff. exists f. rewrite Hdu. split; [reflexivity|exact Hf]. }
+  (* but the plan's groups only hold entries whose set differs from the parent set *)
+  assert (Hgroups : forall orig init groups sdu g e,
+            (forall s' g' e', In (s', g') groups -> In e' g' ->
+                              Plan.set_eq (Plan.ids (Plan.filtered_set (snd e'))) [] = false) ->
+            In (sdu, g) (snd (Plan.plan orig [] init groups)) -> In e g ->
+            Plan.set_eq (Plan.ids (Plan.filtered_set (snd e))) [] = false).
+  { clear. induction orig as [|[k0 fs0] r IH]; intros init groups sdu g e Hinv H1 H2; cbn [Plan.plan] in H1.
+    - eapply Hinv; eauto.
+    - cbv zeta in H1. destruct (Plan.set_eq (Plan.ids (Plan.filtered_set fs0)) []) eqn:E.
+      + eapply IH; eauto.
+      + eapply IH; [|exact H1|exact H2]. clear - Hinv E.
+        induction groups as [|[s0 g0] t IHg]; intros s' g' e' H3 H4; cbn [Plan.add_to_group] in H3.
+        * destruct H3 as [H3|[]]. inversion H3; subst. destruct H4 as [<-|[]]. exact E.
+        * destruct (Plan.set_eq (Plan.ids s0) (Plan.ids (Plan.filtered_set fs0))).
+          -- destruct H3 as [H3|H3].
+             ++ inversion H3; subst. apply in_app_or in H4 as [H4|[<-|[]]]; [|exact E].
+                eapply Hinv; [left; reflexivity|exact H4].
+             ++ eapply Hinv; [right; exact H3|exact H4].
+          -- destruct H3 as [H3|H3].
+             ++ inversion H3; subst. eapply Hinv; [left; reflexivity|exact H4].
+             ++ eapply IHg; [|exact H3|exact H4]. intros s1 g1 e1 H5 H6. eapply Hinv; [right; exact H5|exact H6]. }
+  specialize (Hgroups (to_gfs dg) [] [] sdu g (i, details_of fs) (fun _ _ _ (H : In _ []) => match H with end) Hg Hi).
+  cbn [snd] in Hgroups. congruence.
 Qed.
